@@ -20,7 +20,7 @@
     code, every call of get_namespace_prefix ([d_trace1] up to the creation of the
     wsdl:definitions element, whose nsmap is frozen by lxml at that point, and
     [d_trace2] afterwards). *)
-From SpyneV Require Import Base.Prelude Base.Digits.
+From SpyneV Require Export Base.Prelude Base.Digits C07.Vocab Gen.WsdlGen.
 
 (* ---------------------------------------------------------------- errors *)
 Inductive err :=
@@ -142,7 +142,7 @@ Record pstate := { prefmap : list (text * text);   (* namespace -> prefix *)
                    nsmap : list (text * text);     (* prefix -> namespace *)
                    counter : Z }.                  (* Interface.__ns_counter *)
 
-Definition spref (c : Z) : text := 115 :: str_int c.          (* "s%d" % c *)
+Definition spref (c : Z) : text := gen_pref_stem ++ str_int c.   (* "s%d" % c; the stem is read from the source *)
 
 (** while pref in self.nsmap: counter += 1 ; fuel |nsmap|+1 always suffices
     (C07_prefix_total) *)
@@ -222,7 +222,8 @@ Inductive kind := KComplex | KPlain.
 
 Record cls := {
   c_id : Z;                      (* identity of the Python class object *)
-  c_repr : text;                 (* repr(cls): the toposort2 sort key *)
+  c_repr : text;                 (* repr(cls) *)
+  c_subs : text;                 (* str(getattr(cls.Attributes, 'sub_name', '')) -- 'None' when unset *)
   c_ns : text; c_tn : text;      (* get_namespace(), get_type_name() *)
   c_kind : kind;
   c_base : option Z;             (* __extends__ *)
@@ -378,7 +379,7 @@ Fixpoint schemas_of (imports : list (text * list text)) (m : list (text * sinfo)
       | None => RErr EKeyError
       | Some imp =>
           dor rest <- schemas_of imports r;
-          ROk ({| sc_ns := ns; sc_imports := isort text_leb imp;
+          ROk ({| sc_ns := ns; sc_imports := (if gen_imports_sorted then isort text_leb imp else imp);
                   sc_types := map snd (si_types i); sc_elems := si_elems i |} :: rest)
       end
   end.
@@ -401,8 +402,8 @@ Fixpoint upd_tns (tns : text) (f : schema -> schema) (l : list schema) : list sc
   end.
 
 (* ---------------------------------------------------------------- wsdl phase *)
-Definition in_header_suffix : text := [73;110;72;101;97;100;101;114;77;115;103].       (* InHeaderMsg *)
-Definition out_header_suffix : text := [79;117;116;72;101;97;100;101;114;77;115;103]. (* OutHeaderMsg *)
+Definition in_header_suffix : text := gen_in_header_suffix.     (* _in_header_msg_suffix, read from the source *)
+Definition out_header_suffix : text := gen_out_header_suffix.   (* _out_header_msg_suffix *)
 
 Definition header_msg_name (m : meth) (suffix : text) (hs : list msg) : res text :=
   match hs with
@@ -459,10 +460,17 @@ Definition svc_ptnames (a : snap) (s : svc) : list text :=
 Definition meth_pt (a : snap) (m : meth) : text :=
   match me_port m with Some p => p | None => a_name a end.
 
+(** the namespace whose prefix qualifies a message= reference: the emitters either
+    use the prefix of the WSDL target namespace (where every wsdl:message lives) or
+    the prefix of the namespace of the part's element (get_element_name_ns);
+    which one is read from the source (Gen/WsdlGen.v) *)
+Definition msg_ref_ns (a : snap) (tns_prefixed : bool) (x : msg) : text :=
+  if tns_prefixed then a_tns a else m_ens x.
+
 Definition mk_ptop (a : snap) (m : meth) : ptop :=
   {| po_name := me_op m;
-     po_in := (m_ename (me_in m), (a_tns a, m_ename (me_in m)));
-     po_out := (m_ename (me_out m), (a_tns a, m_ename (me_out m)));
+     po_in := (m_ename (me_in m), (msg_ref_ns a gen_msgref_in_tns (me_in m), m_ename (me_in m)));
+     po_out := (m_ename (me_out m), (msg_ref_ns a gen_msgref_out_tns (me_out m), m_ename (me_out m)));
      po_faults := map (fun f => (m_tn f, (m_tns f, m_tn f))) (me_faults m) |}.
 
 Definition pt_ops_of (a : snap) (name : text) : list ptop :=
@@ -472,20 +480,21 @@ Definition porttypes (a : snap) : list porttype :=
   map (fun n => {| pt_name := n; pt_ops := pt_ops_of a n |})
       (dedup_t [] (flat_map (svc_ptnames a) (a_svcs a))).
 
-Definition hdr_refs (a : snap) (m : meth) (suffix : text) (hs : option (list msg)) : list (qn * text) :=
+Definition hdr_refs (a : snap) (tns_prefixed : bool) (m : meth) (suffix : text) (hs : option (list msg))
+  : list (qn * text) :=
   match hs with
   | None => []
   | Some l => match header_msg_name m suffix l with
-              | ROk n => map (fun h => ((a_tns a, n), m_tn h)) l
+              | ROk n => map (fun h => (((if tns_prefixed then a_tns a else m_tns h), n), m_tn h)) l
               | RErr _ => []     (* unreachable: all_msgs fails first *)
               end
   end.
 
 Definition mk_bop (a : snap) (m : meth) : bop :=
   {| bo_name := me_op m; bo_in := m_ename (me_in m);
-     bo_inh := hdr_refs a m in_header_suffix (me_inh m);
+     bo_inh := hdr_refs a gen_msgref_inh_tns m in_header_suffix (me_inh m);
      bo_out := m_ename (me_out m);
-     bo_outh := hdr_refs a m out_header_suffix (me_outh m);
+     bo_outh := hdr_refs a gen_msgref_outh_tns m out_header_suffix (me_outh m);
      bo_faults := map m_tn (me_faults m) |}.
 
 Definition opt_is (o : option text) (p : text) : bool :=
@@ -527,8 +536,25 @@ Definition wsdl_trace (a : snap) (msgs : list message) : list text :=
   ++ flat_map (fun m => map m_tns (me_faults m)) (all_meths a).
 
 (* ---------------------------------------------------------------- the whole build *)
+(** the key toposort2 sorts a tier by: the tuple whose components are read from
+    the source (Gen/WsdlGen.v), flattened with U+0000 separators -- code point order
+    on the joined text is the order of the tuples (no component contains U+0000) *)
+Definition key_comp (c : cls) (k : kcomp) : text :=
+  match k with KRepr => c_repr c | KNamespace => c_ns c | KTypeName => c_tn c | KSubName => c_subs c end.
+Fixpoint join0 (l : list text) : text :=
+  match l with [] => [] | [x] => x | x :: r => x ++ 0 :: join0 r end.
+Definition key_of (c : cls) : text := join0 (map (key_comp c) gen_topo_key).
 Definition class_key (a : snap) (id : Z) : text :=
-  match find_cls (a_classes a) id with Some c => c_repr c | None => [] end.
+  match find_cls (a_classes a) id with Some c => key_of c | None => [] end.
+
+(** decidable form of the hypothesis of C07_doc_det: the key tells the registered
+    classes apart *)
+Fixpoint injb (key : Z -> text) (l : list Z) : bool :=
+  match l with
+  | [] => true
+  | x :: r => forallb (fun y => (x =? y) || negb (text_eqb (key x) (key y))) r && injb key r
+  end.
+Definition key_injb (a : snap) : bool := injb (class_key a) (keys (data0 (a_deps a))).
 
 Definition meth_io (a : snap) : list msg :=
   flat_map (fun m => [me_in m; me_out m]) (all_meths a).
@@ -633,3 +659,22 @@ Definition wf_snapb (a : snap) : bool :=
   && forallb (fun x => type_regb a (m_tns x, m_tn x)
                        && (text_eqb (m_ens x) (a_tns a) || elem_regb a (m_ens x, m_ename x))) (meth_io a)
   && forallb (fun x => elem_regb a (m_ens x, m_ename x)) (meth_hf a).
+
+(* ---------------------------------------------------------------- ties in toposort2 *)
+(** A class whose handler writes nothing (KPlain) only gets tagged by XmlSchema.add,
+    so the position of such classes in a tier does not matter.  Decidable form of
+    the hypothesis of C07_doc_det_tiers: in every round of toposort2 the sort key
+    tells the classes of the tier that DO write something apart. *)
+Definition plainb (tbl : list cls) (id : Z) : bool :=
+  match find_cls tbl id with Some c => negb (is_complex c) | None => false end.
+Definition cxfilter (tbl : list cls) (l : list Z) : list Z := filter (fun id => negb (plainb tbl id)) l.
+Fixpoint rounds_sepb (tbl : list cls) (key : Z -> text) (fuel : nat) (d : tdata) : bool :=
+  match fuel with
+  | O => true
+  | S f => let ord := ready d in
+           if is_nil ord then true
+           else injb key (cxfilter tbl ord) && rounds_sepb tbl key f (strip_ready ord d)
+  end.
+Definition tier_sepb (a : snap) : bool :=
+  is_nil (a_deps a) ||
+  rounds_sepb (a_classes a) (class_key a) (S (length (data0 (a_deps a)))) (data0 (a_deps a)).
